@@ -439,3 +439,50 @@ func fmtSet(m map[string]bool) string {
 }
 
 func sprintf(f string, a ...any) string { return fmt.Sprintf(f, a...) }
+
+// retResults returns the operands of a Return with defer-spilled results looked through:
+// in a function with defer, go/ssa writes `*slot = v; rundefers; t = *slot; return t`.
+func retResults(ret *ssa.Return) []ssa.Value {
+	out := make([]ssa.Value, len(ret.Results))
+	for i, v := range ret.Results {
+		out[i] = v
+		u, ok := v.(*ssa.UnOp)
+		if !ok || u.Op != token.MUL || u.Block() != ret.Block() {
+			continue
+		}
+		al, ok := u.X.(*ssa.Alloc)
+		if !ok {
+			continue
+		}
+		// last store to the slot in this block before the load
+		var last ssa.Value
+		for _, ins := range ret.Block().Instrs {
+			if ins == ssa.Instruction(u) {
+				break
+			}
+			if st, ok := ins.(*ssa.Store); ok && st.Addr == ssa.Value(al) {
+				last = st.Val
+			}
+		}
+		if last != nil {
+			out[i] = last
+		}
+	}
+	return out
+}
+
+// unwrapConv looks through ChangeType / MakeInterface / ChangeInterface.
+func unwrapConv(v ssa.Value) ssa.Value {
+	for {
+		switch x := v.(type) {
+		case *ssa.ChangeType:
+			v = x.X
+		case *ssa.MakeInterface:
+			v = x.X
+		case *ssa.ChangeInterface:
+			v = x.X
+		default:
+			return v
+		}
+	}
+}
